@@ -9,7 +9,7 @@ from . import c01
 
 ID = "C09"
 NEEDS_SHIM = False
-BUDGET = {"quick": 1500, "thorough": 40000}
+BUDGET = {"quick": 1500, "thorough": 160000}
 MIN_EVALS = {"quick": 2000, "thorough": 50000}
 RULE = (
     "seeded random cases: layout (1-3 axes, random position sets, 2-6 cells; single-axis metrics registered at every "
@@ -25,7 +25,7 @@ FILLS = [0, -3.25, 7, 2.5]
 
 
 def gen_case(rng, i, tier):
-    layout = gen.random_layout(rng, nmin=2, nmax=6, p=0.55)
+    layout = gen.random_layout(rng, nmin=2, nmax=gen.deep(rng, tier, 6, 11), p=0.55)
     axes = layout["axes"]
     axn = [a["name"] for a in axes]
     cm = gen.layout_coords(layout)
